@@ -554,7 +554,15 @@ func (i *Install) availableName() error {
 	}
 
 	h, err := i.cfg.Releases.History(start)
-	if err != nil || len(h) < 1 {
+	if err != nil {
+		// Only "no such release" means the name is free; any other storage
+		// failure says nothing about whether the name is in use.
+		if errors.Is(err, driver.ErrReleaseNotFound) {
+			return nil
+		}
+		return errors.Wrapf(err, "unable to check whether release name %q is in use", start)
+	}
+	if len(h) < 1 {
 		return nil
 	}
 	releaseutil.Reverse(h, releaseutil.SortByRevision)
